@@ -7,11 +7,11 @@ EXTENDS Converge, Json
 Trace == ndJsonDeserialize("obs.ndjson")
 VARIABLES l, bad
 tvars == <<l, bad, st, hist>>
-TInit == l = 1 /\ bad = <<>> /\ st = [t |-> InitT, next |-> 3] /\ hist = <<>>
+TInit == l = 1 /\ bad = <<>> /\ st = InitSt /\ hist = <<>>
 
 HistEv ==
   /\ l <= Len(Trace)
-  /\ LET e == Trace[l]  k == RunFrom([t |-> InitT, next |-> 3], e.ops, 1) IN
+  /\ LET e == Trace[l]  k == RunFrom(InitSt, e.ops, 1) IN
        bad' = IF k = 0 THEN bad ELSE Append(bad, [i |-> l, case |-> e.case, at |-> k])
   /\ l' = l + 1 /\ UNCHANGED <<st, hist>>
 Finish ==
